@@ -2,6 +2,7 @@ import ScVerif.C01.Drv
 import ScVerif.C04.Pull
 import ScVerif.C04.Bus
 import ScVerif.C04.Stall
+import ScVerif.C04.Config
 /-!
 Driver handler for C04 (stateful): a C01 resource plus its bus (`Bus.lean`): the listeners of the
 backpressured subscriptions opened so far.  `unsub` only marks a listener dead (its context is
@@ -9,7 +10,7 @@ cancelled); a write that announces an event runs `Bus.send` — snapshot, delive
 listener was met — and `racec` registers a new listener while that `Send` is in flight.
 
 ```
-newc|newv <C01 config> [eqv=<equal|sameA>]             -> ok
+newc|newv <C01 config> [eqv=<equal|sameA|nil>,…]      -> ok   (the equivalence options in order: `resolveEqv`, Config.lean)
 sub name=<k> [rm=<mask>] [uo]                          -> seed=[…]
 subid name=<k> id=<id> [rm=<mask>] [uo]                -> seed=[…]      (PullID; deliveries end with $ once the stream has ended)
 unsub name=<k>                                         -> ok
@@ -20,7 +21,8 @@ raced id=<id> [am] [ev=…] [chk=…] u=<upd|add|del> uid=<id> [umsg=<msg>] [uci
                                                        -> uval=… uerr=… | k1=[…] || val=… err=… | k1=[…]
 racef sname=<k> [srm=<mask>] [suo] tname=<m> [trm=<mask>] [tuo] order=<12|21>
                                                        -> seed=[…] seed2=[…]   (two Pulls whose Bus.Listen calls overlap; released in `order`)
-hold name=<k>                                          -> ok            (Value: the consumer of k stops receiving)
+hold name=<k>                                          -> ok            (the consumer of k stops receiving)
+stallw w=<upd|add|del> rname=<k> … (the write's keys)  -> k=[…] || val=… err=… | k1=[…]   (Collection: the write waits for the held k)
 resume name=<k>                                        -> k=[…]         (it receives again: what its forwarder was holding)
 ```
 While a subscription is held its forwarder takes ONE change off the bus and blocks handing it on; the
@@ -36,6 +38,17 @@ def namedEqv : String → Option (Option Msg → Option Msg → Bool)
   | "sameA" => some (fun x y => optA x == optA y)
   | _ => none
 
+/-- one equivalence option of the resource: a named comparer, or `nil` = `WithEquivalence(nil)` -/
+def parseEqvTok (s : String) : Option (ResOpt Msg) :=
+  if s == "nil" then some (.equivalence none) else (namedEqv s).map (fun f => .equivalence (some f))
+
+/-- `eqv=<opt>,<opt>,…`: the equivalence options of the resource in the order given, resolved as
+`computeConfig` does (each overwrites) -/
+def parseEqvList? (kv : KV) : Option (Eqv Msg) :=
+  match kvGet kv "eqv" with
+  | none => some none
+  | some s => ((s.splitOn ",").mapM parseEqvTok).map resolveEqv
+
 structure Sub where
   name : String
   opts : SubOpts Mask
@@ -45,6 +58,7 @@ structure Sub where
   held : Bool := false          -- the consumer is not receiving (Value)
   hand : List (VDeliv Msg) := []   -- what the forwarder is blocked handing to a held consumer
   out : List (VDeliv Msg) := []    -- what the consumer received of the write being announced (transient)
+  handC : List (CEvent Msg) := []  -- Collection: what the forwarder of a held consumer has taken off the bus
 
 inductive Res
   | none
@@ -73,7 +87,10 @@ def showVDeliv (d : VDeliv Msg) : String := s!"{showMsg d.value}|{d.time}|{showF
 def deliverSubC (cfg : FCfg) (eqv : Eqv Msg) (evs : List (CEvent Msg)) (sb : Sub) : String × Sub :=
   let got := evs.filterMap (collForward cfg eqv sb.opts)
   match sb.pid with
-  | none => (s!"{sb.name}={showList (got.map showCEvent)}", sb)
+  | none =>
+    -- a held consumer receives nothing; its forwarder keeps what it was handed
+    if sb.held then (s!"{sb.name}=[]", { sb with handC := sb.handC ++ got })
+    else (s!"{sb.name}={showList (got.map showCEvent)}", sb)
   | some id =>
     if sb.ended then (s!"{sb.name}=[]$", sb)
     else
@@ -245,7 +262,13 @@ def handleRaceE (st : DrvState) (kv : KV) : Option (DrvState × String) := do
           deliverV cfg st.eqv (live (markDead cname st.subs)) o.events)
   | .none => none
 
-def handleOpt (st : DrvState) (toks : List String) : Option (DrvState × String) :=
+/-- `Collection.Update` / `Delete` announce with `context.TODO()`: no deadline.  A write that announces
+something while the forwarder of a held consumer is still holding a change waits until that consumer
+receives again - on its own it never returns -/
+def collBlocked (st : DrvState) {ε : Type} (evs : List ε) : Bool :=
+  !evs.isEmpty && (live st.subs).any (fun sb => sb.held && !sb.handC.isEmpty)
+
+def handleBase (st : DrvState) (toks : List String) : Option (DrvState × String) :=
   match toks with
   | [] => none
   | op :: rest => do
@@ -307,17 +330,26 @@ def handleOpt (st : DrvState) (toks : List String) : Option (DrvState × String)
       let sb ← (live st.subs).find? (fun sb => sb.name == name)
       pure ({ st with subs := st.subs.map (fun l => if l.id == name && l.alive then { l with st := { l.st with held := false, hand := [] } } else l) },
             s!"{name}={showList (sb.hand.map showVDeliv)}")
+    | "hold", .coll _ _ =>
+      let name ← kvGet kv "name"
+      if !(live st.subs).any (fun sb => sb.name == name && sb.pid.isNone) then none
+      pure ({ st with subs := st.subs.map (fun l => if l.id == name && l.alive then { l with st := { l.st with held := true } } else l) }, "ok")
+    | "resume", .coll _ _ =>
+      let name ← kvGet kv "name"
+      let sb ← (live st.subs).find? (fun sb => sb.name == name)
+      pure ({ st with subs := st.subs.map (fun l => if l.id == name && l.alive then { l with st := { l.st with held := false, handC := [] } } else l) },
+            s!"{name}={showList (sb.handC.map showCEvent)}")
     | "newc", _ =>
       let cfg ← parseCfg? kv
       let rng ← parseRng? ((kvGet kv "rng").getD "")
       let init ← parseInit? ((kvGet kv "init").getD "")
-      let eqv ← optKey kv "eqv" namedEqv
+      let eqv ← parseEqvList? kv
       -- `NewCollection` keeps an initial record under the id interceptor's image of its id (fix 215ba16)
       pure ({ res := .coll cfg (Coll.init cfg (init.map (fun kv => (icptId cfg kv.1, kv.2))) rng), eqv := eqv, subs := [] }, "ok")
     | "newv", _ =>
       let cfg ← parseCfg? kv
       let init ← optKey kv "init" parseMsg?
-      let eqv ← optKey kv "eqv" namedEqv
+      let eqv ← parseEqvList? kv
       pure ({ res := .val cfg (Value.init cfg init), eqv := eqv, subs := [] }, "ok")
     | "sub", .coll cfg s =>
       let name ← kvGet kv "name"
@@ -346,6 +378,7 @@ def handleOpt (st : DrvState) (toks : List String) : Option (DrvState × String)
       let msg ← (kvGet kv "msg").bind parseMsg?
       let wr ← parseWriteReq? kv
       let (o, s') := Coll.update cfg s id msg wr
+      if collBlocked st o.events then none
       pure ({ st with res := .coll cfg s', subs := publish (dC cfg st.eqv) st.subs o.events [] },
             s!"val={showOptMsg o.val} err={showErr o.err} | " ++ deliverC cfg st.eqv (live st.subs) o.events)
     | "add", .coll cfg s =>
@@ -353,12 +386,14 @@ def handleOpt (st : DrvState) (toks : List String) : Option (DrvState × String)
       let msg ← (kvGet kv "msg").bind parseMsg?
       let wr ← parseWriteReq? kv
       let (o, s') := Coll.add cfg s id msg wr
+      if collBlocked st o.events then none
       pure ({ st with res := .coll cfg s', subs := publish (dC cfg st.eqv) st.subs o.events [] },
             s!"val={showOptMsg o.val} err={showErr o.err} | " ++ deliverC cfg st.eqv (live st.subs) o.events)
     | "del", .coll cfg s =>
       let id ← kvGet kv "id"
       let wr ← parseWriteReq? kv
       let (o, s') := Coll.delete cfg s id wr
+      if collBlocked st o.events then none
       pure ({ st with res := .coll cfg s', subs := publish (dC cfg st.eqv) st.subs o.events [] },
             s!"val={showOptMsg o.val} err={showErr o.err} | " ++ deliverC cfg st.eqv (live st.subs) o.events)
     | "vset", .val cfg s =>
@@ -374,6 +409,24 @@ def handleOpt (st : DrvState) (toks : List String) : Option (DrvState × String)
       pure ({ st with res := .val cfg s', subs := publish (dV cfg st.eqv) st.subs o.events [] },
             s!"val={showOptMsg o.val} err={showErr o.err} | " ++ deliverV cfg st.eqv (live st.subs) o.events)
     | _, _ => none
+
+/-- `stallw w=<upd|add|del> rname=<k> …(the write's keys)`: the write is started while the forwarder of
+the held subscription `rname` is full, so its `Send` waits at that listener (no deadline); then the
+consumer of `rname` receives again: it is given what its forwarder held, the forwarder takes the write's
+change and the `Send` goes on to the later listeners.  Observably: `resume rname`, then the write on a
+bus where nobody is stalled.  Answer: `<resume answer> || <write answer>`. -/
+def handleOpt (st : DrvState) (toks : List String) : Option (DrvState × String) :=
+  match toks with
+  | "stallw" :: rest => do
+    let kv ← parseKV rest
+    let w ← kvGet kv "w"
+    let rname ← kvGet kv "rname"
+    if !(w == "upd" || w == "add" || w == "del") then none
+    let (st1, a1) ← handleBase st ["resume", s!"name={rname}"]
+    let keep := rest.filter (fun t => !(t.startsWith "w=" || t.startsWith "rname=" || (w == "del" && t.startsWith "msg=")))
+    let (st2, a2) ← handleBase st1 (w :: keep)
+    pure (st2, s!"{a1} || {a2}")
+  | _ => handleBase st toks
 
 def handleS (st : DrvState) (toks : List String) : DrvState × String :=
   match handleOpt st toks with
